@@ -281,6 +281,8 @@ class Ctx:
         if signature:
             k = self.match_known(signature)
             if k:
+                if os.environ.get('VERIF_DEBUG_KNOWN'):
+                    log('known-hit:', signature[:60], '<-', what[:300])
                 if signature not in self.known_hit:
                     self.known_hit[signature] = k.get('what', what)
                 self.count('known_finding_hits', signature)
